@@ -167,7 +167,7 @@ std::string propTsm(const FmmCase& c, const std::string& prop){
                 auto it = perLeaf.find(T);
                 if(it == perLeaf.end()){
                     gf::Val v = gf::zero();
-                    if(farDone && H > lstop) gf::addPlain(v, ex.local(H - 1, T, lstop));
+                    if(farDone && H > lstop) gf::addPlain(v, ex.farAtLeaf(T, lstop));
                     if(nearDone) gf::addPlain(v, ex.nearField(T, -1, true));
                     it = perLeaf.emplace(T, v).first;
                 }
@@ -184,7 +184,7 @@ std::string propTsm(const FmmCase& c, const std::string& prop){
         if(seqErr.empty() && farDone && nearDone && lstop <= 2){
             const Coord T = mtg.leaves.begin()->first;
             gf::Val direct = ex.allSources(T, Coord{{0,0,0,0}}, -1), viaLists = gf::zero();
-            if(H > lstop) gf::addPlain(viaLists, ex.local(H - 1, T, lstop));
+            if(H > lstop) gf::addPlain(viaLists, ex.farAtLeaf(T, lstop));
             gf::addPlain(viaLists, ex.nearField(T, -1, true));
             if(direct != viaLists) return "MODEL-ERROR partition identity violated by the reference model (tsm)";
         }
@@ -337,7 +337,7 @@ std::string propTsm(const FmmCase& c, const std::string& prop){
             for(size_t i = 0 ; i < acc.size() ; ++i){
                 const Coord T = rt.leafOf[i];
                 auto it = perLeaf.find(T);
-                if(it == perLeaf.end()){ gf::Val v = gf::zero(); if(H > 2) gf::addPlain(v, exr.local(H - 1, T, 2)); gf::addPlain(v, exr.nearField(T, -1, true)); it = perLeaf.emplace(T, v).first; }
+                if(it == perLeaf.end()){ gf::Val v = gf::zero(); if(H > 2) gf::addPlain(v, exr.farAtLeaf(T, 2)); gf::addPlain(v, exr.nearField(T, -1, true)); it = perLeaf.emplace(T, v).first; }
                 gf::addPlain(acc[i], it->second);
             }
             return "";
@@ -424,6 +424,7 @@ pbt::GenCfg cfgFor(const std::string& prop, const hc::Args& a){
     g.schedules = true; g.executors = 1 << RT; g.variants = 2; g.varyThreads = (RT != 3);
 #endif
     if(prop == "C12") g.histories = true;
+    if(prop == "C15" || prop == "C09" || prop == "C06" || prop == "C07" || prop == "C13") g.emptySets = true;
     if(prop == "C09"){ g.histories = true; g.historyOneIn = 4; }   // a full execution may be issued as several execute() calls (README, flag list)
     if(prop == "C13"){ g.cycles = true; g.maxCycles = 3; g.lstops = false; }
     return g;
